@@ -264,7 +264,7 @@ def handleOp (st : St) (f : String) (j : Json) : Except String (St × Json) := d
       else if st.w.acked.contains p || st.w.timedOut.contains p then pure (st, Json.mkObj [("r", "noop")])
       else if st.w.recvd.any (fun e => e.1 == p) then pure (st, Json.mkObj [("r", "err"), ("cls", ce)])
       else
-        let (w1, r) := step st.cfg st.w (.timeout p)
+        let (w1, r) := step st.cfg st.w (.timeout p (optStr j "mode" == "onclose"))
         match r with
         | .ok => pure (finish st c w1 [("r", "ok")])
         | other => pure (st, failJson other)
